@@ -218,8 +218,8 @@ CANARIES = [
     {'name': '_iterate: look-ahead pull', 'module': 'streaming', 'only': ['streaming.Iter._iterate'], 'expect': ['streaming.Iter._iterate'],
      'old': "            if yld is SKIP:\n                continue\n            elif", 'new': "            if yld is SKIP:\n                continue\n            elif yld is None:\n                next(iterator, None)\n                continue\n            elif"},
     {'name': '_add_op: mutates the stack in place', 'module': 'streaming', 'only': ['streaming.Iter._add_op'], 'expect': ['streaming.Iter._add_op'],
-     'old': "        return type(self)(subspec=self.subspec, _iter_stack=[(opname, args, callback)] + self._iter_stack)",
-     'new': "        self._iter_stack.insert(0, (opname, args, callback))\n        return type(self)(subspec=self.subspec, _iter_stack=self._iter_stack)"},
+     'old': "        return type(self)(subspec=self.subspec, _iter_stack=[(opname, args, callback)] + self._iter_stack,\n                          sentinel=self.sentinel)",
+     'new': "        self._iter_stack.insert(0, (opname, args, callback))\n        return type(self)(subspec=self.subspec, _iter_stack=self._iter_stack, sentinel=self.sentinel)"},
     {'name': 'glomit: callbacks applied newest first', 'module': 'streaming', 'only': ['streaming.Iter.glomit', 'LEMMA C17.order'], 'expect': ['streaming.Iter.glomit', 'LEMMA C17.order'],
      'old': "        for _, _, callback in reversed(self._iter_stack):", 'new': "        for _, _, callback in self._iter_stack:"},
     {'name': 'flatten stage: not lazy', 'module': 'streaming', 'only': ['LEMMA C17.stage'], 'expect': ['LEMMA C17.stage'],
